@@ -2,7 +2,9 @@ package main
 
 import (
 	"fmt"
+	"go/ast"
 	"go/token"
+	"go/types"
 	"sort"
 	"strings"
 
@@ -243,6 +245,9 @@ func classifyEmit(p *Prog, v ssa.Value, depth int) []emitSrc {
 		case "tcell.tScreen":
 			return []emitSrc{{kind: "prepared", name: ref.Name}}
 		}
+	}
+	if srcs := tableFieldSources(p, v, depth); srcs != nil {
+		return srcs
 	}
 	switch x := v.(type) {
 	case *ssa.Phi:
@@ -868,4 +873,167 @@ func c09FormatChars(c *Ctx, p *Prog) {
 	if n == 0 {
 		c.Undecided("C09-R11", "width stores", "-", "no computed width store found")
 	}
+}
+
+// tableFieldSources: the emitted string is field k of the element of a small table the code ranges over
+// (`for _, m := range table { … TPuts(m.seq) }`): every element's field k is a source.  The table is a
+// package-level array/slice literal (its strings are constants of the source) or a literal built on the
+// spot (its strings are whatever was stored: capabilities, literals).  nil if v is not of that shape.
+func tableFieldSources(p *Prog, v ssa.Value, depth int) []emitSrc {
+	ld, ok := v.(*ssa.UnOp)
+	if !ok || ld.Op != token.MUL {
+		return nil
+	}
+	// an array of strings indexed by a variable (t.underStyles[us], a local fancyUnder[us]): every
+	// string ever stored into the array is a source
+	if ia, isIA := ld.X.(*ssa.IndexAddr); isIA {
+		if _, isConstIdx := constInt(ia.Index); !isConstIdx {
+			var out []emitSrc
+			collect := func(fn *ssa.Function, match func(base ssa.Value) bool) {
+				eachInstr(fn, func(in ssa.Instruction) {
+					st, isSt := in.(*ssa.Store)
+					if !isSt {
+						return
+					}
+					ia2, isIA2 := st.Addr.(*ssa.IndexAddr)
+					if !isIA2 || !match(ia2.X) {
+						return
+					}
+					out = append(out, classifyEmit(p, st.Val, depth+1)...)
+				})
+			}
+			switch base := ia.X.(type) {
+			case *ssa.Alloc:
+				collect(base.Parent(), func(b ssa.Value) bool { return b == ssa.Value(base) })
+			case *ssa.FieldAddr:
+				ref, _, okR := fieldAddrRef(base)
+				if okR && ref.Owner == "tcell.tScreen" {
+					for _, fn := range p.modFns {
+						if fn.Pkg == p.Tcell {
+							collect(fn, func(b ssa.Value) bool {
+								r2, _, ok2 := fieldAddrRef(b)
+								return ok2 && r2 == ref
+							})
+						}
+					}
+				}
+			}
+			if len(out) > 0 {
+				return out
+			}
+		}
+		return nil
+	}
+	fa, ok := ld.X.(*ssa.FieldAddr)
+	if !ok {
+		return nil
+	}
+	var table ssa.Value
+	if ia, isIA := fa.X.(*ssa.IndexAddr); isIA {
+		// table[i].field, the element addressed in place
+		table = ia.X
+	}
+	elem, ok := fa.X.(*ssa.Alloc) // the range variable
+	if !ok && table == nil {
+		return nil
+	}
+	elemType := fa.X.Type()
+	for _, r := range referrersOrNil(elem) {
+		if st, isSt := r.(*ssa.Store); isSt && st.Addr == ssa.Value(elem) {
+			switch iv := st.Val.(type) {
+			case *ssa.Index:
+				table = iv.X
+			case *ssa.UnOp:
+				if ia, isIA := iv.X.(*ssa.IndexAddr); isIA && iv.Op == token.MUL {
+					table = ia.X
+				}
+			}
+		}
+	}
+	if table == nil {
+		return nil
+	}
+	// look through the copy `t := *table`
+	var base ssa.Value = table
+	if u, isU := table.(*ssa.UnOp); isU && u.Op == token.MUL {
+		base = u.X
+	}
+	if sl, isSl := base.(*ssa.Slice); isSl {
+		base = sl.X
+	}
+	switch b := base.(type) {
+	case *ssa.Global:
+		pk := p.pkg("")
+		obj := pk.Types.Scope().Lookup(b.Name())
+		if obj == nil {
+			return nil
+		}
+		cl, isCL := findVarDecl(pk, obj).(*ast.CompositeLit)
+		if !isCL {
+			return nil
+		}
+		var out []emitSrc
+		for _, el := range cl.Elts {
+			if kv, isKV := el.(*ast.KeyValueExpr); isKV {
+				el = kv.Value
+			}
+			ecl, isE := el.(*ast.CompositeLit)
+			if !isE {
+				return nil
+			}
+			var fe ast.Expr
+			for i, f := range ecl.Elts {
+				if kv, isKV := f.(*ast.KeyValueExpr); isKV {
+					if id, isID := kv.Key.(*ast.Ident); isID {
+						if st, okS := elemType.(*types.Pointer).Elem().Underlying().(*types.Struct); okS && fa.Field < st.NumFields() && st.Field(fa.Field).Name() == id.Name {
+							fe = kv.Value
+						}
+					}
+				} else if i == fa.Field {
+					fe = f
+				}
+			}
+			if fe == nil {
+				out = append(out, emitSrc{kind: "literal", lit: ""})
+				continue
+			}
+			s, okS := strConst(pk.TypesInfo, fe)
+			if !okS {
+				return []emitSrc{{kind: "unknown", unknown: "table " + b.Name() + " has a non-constant string"}}
+			}
+			out = append(out, emitSrc{kind: "literal", lit: s})
+		}
+		return out
+	case *ssa.Alloc:
+		var out []emitSrc
+		for _, r := range referrers(b) {
+			ia, isIA := r.(*ssa.IndexAddr)
+			if !isIA {
+				continue
+			}
+			for _, r2 := range referrers(ia) {
+				f2, isFA := r2.(*ssa.FieldAddr)
+				if !isFA || f2.Field != fa.Field {
+					continue
+				}
+				for _, r3 := range referrers(f2) {
+					if st, isSt := r3.(*ssa.Store); isSt && st.Addr == ssa.Value(f2) {
+						out = append(out, classifyEmit(p, st.Val, depth+1)...)
+					}
+				}
+			}
+		}
+		if len(out) == 0 {
+			return nil
+		}
+		return out
+	}
+	return nil
+}
+
+func referrersOrNil(a *ssa.Alloc) []ssa.Instruction {
+	if a == nil {
+		return nil
+	}
+	return referrers(a)
 }
